@@ -112,9 +112,28 @@ def replay_untouched(sc):
     return bool(details), "; ".join(details[:2])
 
 
-def h_mean(ctx, nl, nr, rep, fa, fv, refine=0):
+def replay_mean_own_cells(sc):
+    """real HEM model on the real probability-step grid (its cells are cut at probability mid points): mu_h against the rate-weighted
+    sum of the states, the rates being the chain's own q-vector"""
+    model = concrete_models()["hem"]
+    grid = GS.CTMCGridProbabilityStep(h=0.05, model=model, minimum_probability_step=0.1)
+    proc = MC.MarkovChainProcess(model, SamplingMethod.INVERSION, grid)
+    proc.initialisation(StubProduct())
+    ax, piv = np.asarray(grid.axes[0], dtype=float), grid.origin_coordinate.value
+    q = np.asarray(SF.create_q_vector(proc.model.levy_triplet.nu, grid), dtype=float)
+    mu_h = float(MC.compute_mu_h(levy_measure=proc.model.levy_triplet.nu, grid=grid, axis=grid.axes[0], origin=piv))
+    want = float(np.dot(ax, q))
+    return abs(mu_h - want) > 1e-9 * max(1.0, abs(want)), f"HEM on CTMCGridProbabilityStep(h=0.05, minimum_probability_step=0.1): mu_h = {mu_h!r}, sum of state x rate = {want!r}"
+
+
+def h_mean(ctx, nl, nr, rep, fa, fv, refine=0, own_cells=False):
     axis, h, pivot = sym_axis(ctx, nl, nr)
     grid = make_grid(h, pivot, [axis])
+    if own_cells:
+        # a grid that cuts its cells at its own points (as the probability-step grid does): compensator and rates use the same cells
+        from .c01_rates import WeightedMiddleGrid
+
+        grid = WeightedMiddleGrid(ctx.real("middle_weight", 0, 1, lo_strict=True, hi_strict=True), h=h, origin_coordinate=pivot, axes=[axis])
     for _ in range(refine):
         grid.refine()
     sigma = ctx.real("sigma", 0)
@@ -140,10 +159,14 @@ def h_mean(ctx, nl, nr, rep, fa, fv, refine=0):
     l, r = ax[0], ax[len(ax) - 1]
     q = SF.create_q_vector(proc.model.levy_triplet.nu, grid)
     mu_h_oracle = z3.RealVal(0)
-    for k, (lo, hi) in cells(ax, piv).items():
+    cs = cells(ax, piv)
+    if own_cells:
+        nn = len(ax)
+        cs = {k: (ax[0] if k == 0 else grid.middle(ax[k - 1], ax[k]), ax[nn - 1] if k == nn - 1 else grid.middle(ax[k], ax[k + 1])) for k in range(nn) if k != piv}
+    for k, (lo, hi) in cs.items():
         mu_h_oracle = mu_h_oracle + V.term_of(ax[k]) * cell_mass_term(nu, k, piv, lo, hi)
-    info = {"nl": nl, "nr": nr, "rep": rep, "fa": fa, "fv": fv, "refine": refine}
-    rp = (replay_mean, lambda m: {"nl": nl, "nr": nr})
+    info = {"nl": nl, "nr": nr, "rep": rep, "fa": fa, "fv": fv, "refine": refine, "own_cells": own_cells}
+    rp = (replay_mean, lambda m: {"nl": nl, "nr": nr}) if not own_cells else (replay_mean_own_cells, lambda m: {})
     mu_h = MC.compute_mu_h(levy_measure=proc.model.levy_triplet.nu, grid=grid, axis=ax, origin=piv)
     ctx.prove("C04.mu_h_is_rate_weighted_state_sum", EQ(mu_h, SymReal(mu_h_oracle)), info=info, replay=rp)
     chain_mean = proc.process_drift() + SymReal(mu_h_oracle)
@@ -384,6 +407,7 @@ def harnesses(tier):
         if rep != "ZERO":  # the ZERO representation needs finite variation
             hs.append(Harness(f"copula.mixed.{rep}", h_copula_margins, {"npts": 1, "rep": rep, "fv": (True, False)}, max_paths=6000, batch=10))
             hs.append(Harness(f"copula.iv.{rep}", h_copula_margins, {"npts": 1, "rep": rep, "fv": (False, False)}, max_paths=6000, batch=10))
+    hs.append(Harness("mean.2.2.grid_with_its_own_cell_boundaries", h_mean, {"nl": 2, "nr": 2, "rep": "TILDE", "fa": False, "fv": True, "own_cells": True}, max_paths=6000, batch=10))
     hs.append(Harness("copula.axes_differ.TILDE", h_copula_margins, {"npts": 1, "nr": 2, "rep": "TILDE", "fv": True}, max_paths=6000, batch=10))
     hs.append(Harness("copula.variance", h_copula_variance, max_paths=2000, batch=10))
     hs.append(Harness("twin", h_twin, twin="must_fail"))
